@@ -154,7 +154,13 @@ def handleRt (args impl : List String) : String :=
       (if x.isNaN ∧ y.isNaN then "OK nt=1 cls=beyond" else "VIOL clause=ge.horizon_nan")
     else if inside then
       if x.isNaN ∨ y.isNaN then s!"VIOL clause=ge.forward_nan{tag}"
-      else if dist ≥ 9000000.0 then "OK nt=1 cls=inside_near_horizon"      -- accuracy is not claimed this close
+      else if lat'.isNaN ∨ lon'.isNaN then s!"VIOL clause=ge.reverse_nan{tag}"
+      else if (match scale with | some m => decide (m < 1e-3) | none => decide (dist ≥ 9000000.0)) then
+        -- within a few kilometres of the horizon the plane coordinates are astronomically large:
+        -- only a looser bound is checked there
+        (let e1 := Float.abs (lat' - lat)
+         let e2 := if Float.abs lat > 89.9999 then 0.0 else angDiff lon' lon
+         if e1 ≤ 1e-6 ∧ e2 ≤ 1e-6 then "OK nt=1 cls=inside_at_horizon" else s!"VIOL clause=ge.roundtrip_geo{tag} why=near-horizon")
       else if !(Float.abs (lat' - lat) ≤ 1e-9 ∧ (angDiff lon' lon ≤ 1e-9 ∨ Float.abs lat > 89.9999)) then
         s!"VIOL clause=ge.roundtrip_geo{tag} dlat={lat' - lat} dlon={angDiff lon' lon}"
       else if !(near 1e-6 1e-6 x x' ∧ near 1e-6 1e-6 y y') then s!"VIOL clause=ge.roundtrip_plane{tag}"
